@@ -141,6 +141,7 @@ class MasterSim(object):
         self.groups_loaded = {}
         self.strict_integrity = False
         self.dirty = True
+        self.dirty_kinds = {'init'}
         self.down_since = {}
         self.vanished = {}         # server -> time its presence vanished
         self.marked = set()        # (server, app) named in a freeze request
@@ -652,6 +653,7 @@ class MasterSim(object):
             self.schedule(kind='cycle')
             self.drain()
         self.dirty = False
+        self.dirty_kinds = set()
         for check in self.quiescent_checks:
             check(self)
 
@@ -1144,6 +1146,7 @@ class MasterSim(object):
         self.count('op:' + op[0])
         if op[0] not in self.MASTER_OPS:
             self.dirty = True
+            self.dirty_kinds.add(op[0])
         return getattr(self, 'op_' + op[0])(*op[1:])
 
     # ------------------------------------------------------- crash prefixes
